@@ -556,6 +556,20 @@ func PrintResult(w *os.File, hr *HarnessResult) {
 		hr.Harness, hr.Paths, hr.ByStatus, hr.Decisions, hr.Steps, hr.Wall.Round(time.Millisecond),
 		hr.Solver.Queries, hr.Solver.SatN, hr.Solver.UnsatN, hr.Solver.UnknownN, hr.Solver.Errors, hr.Solver.Time.Round(time.Millisecond))
 	fmt.Fprintf(w, "  covers: %v\n", hr.Covers)
+	if os.Getenv("VERIF_FUNCS") != "" {
+		type kv struct {
+			k string
+			v int64
+		}
+		var fs []kv
+		for k, v := range hr.Functions {
+			fs = append(fs, kv{k, v})
+		}
+		sort.Slice(fs, func(a, b int) bool { return fs[a].v > fs[b].v })
+		for k := 0; k < len(fs) && k < 25; k++ {
+			fmt.Fprintf(w, "    %8d %s\n", fs[k].v, fs[k].k)
+		}
+	}
 	for _, v := range hr.Violations {
 		fmt.Fprintf(w, "  VIOLATION %s: %s\n    model=%v\n    trace=%v\n", v.Status, v.Label, v.Model, shortTrace(v.Trace))
 		if v.Stack != "" {
@@ -622,15 +636,24 @@ func (e *Engine) ExpectedCovers(full string) []string {
 // funcInfo numbers the SSA values of a function so that frames can keep them
 // in a slice.
 type funcInfo struct {
-	index map[ssa.Value]int
-	n     int
+	index  map[ssa.Value]int
+	n      int
+	name   string     // fn.String(), computed once
+	ext    externalFn // environment model, if any
+	denied bool
+	memo   bool
 }
 
 func (e *Engine) funcInfoOf(fn *ssa.Function) *funcInfo {
 	if v, ok := e.finfo.Load(fn); ok {
 		return v.(*funcInfo)
 	}
-	fi := &funcInfo{index: map[ssa.Value]int{}}
+	fi := &funcInfo{index: map[ssa.Value]int{}, name: fn.String()}
+	if fn.Parent() == nil {
+		fi.ext = externals[fi.name]
+		fi.denied = deniedPkgs[pkgPathOf(fn)] && !allowedFns[fi.name]
+		fi.memo = memoFns[fi.name]
+	}
 	add := func(v ssa.Value) {
 		if _, ok := fi.index[v]; !ok {
 			fi.index[v] = fi.n
